@@ -162,7 +162,7 @@ def run(ctx):
                 'forked never-set-up process (so both the never-set-up and the set-up state are starting points); plus random '
                 'histories up to length 12 incl. mask_sift; observed: get_level() and call outcome after every step; '
                 'non-trivial = contains a call with a verbosity override' % depth)
-    ctx.proof(extra=['props/Prop_Tie_Logger.v'])  # translation tie: program regenerated from the source + refinement theorems
+    ctx.proof(extra=['props/Prop_Tie_Logger.v', 'props/Prop_Tie_Misc.v'])  # translation tie: program regenerated from the source + refinement theorems
     reference()
     _W['work'] = ctx.work
     jobs = []
